@@ -30,6 +30,7 @@ type mapCfg struct {
 	Src    string `json:"src"`   // "random" | "tlc"
 	Marsh  string `json:"marsh"` // "" (default JSON) | "gob" (custom marshaler, registered types)
 	Cmp    bool   `json:"cmp"`   // a caller-supplied KeyCompare (same order as the default one)
+	Rev    bool   `json:"rev"`   // with Cmp: the caller-supplied KeyCompare sorts in the reverse of the default order
 	InMem  bool   `json:"inmem"` // trees made by NewInMemory(): no store, default branch factor, never persisted
 }
 
@@ -136,6 +137,9 @@ func (r *mapRun) remoteCfg(withCache bool) *mast.RemoteConfig {
 	if r.cfg.Cmp {
 		def := mast.DefaultKeyCompare(json.Marshal)
 		c.KeyCompare = func(a, b interface{}) (int, error) { x, err := def(a, b); return 7 * x, err } // same sign, other magnitude
+		if r.cfg.Rev {
+			c.KeyCompare = func(a, b interface{}) (int, error) { x, err := def(a, b); return -3 * x, err } // descending
+		}
 	}
 	return c
 }
@@ -147,6 +151,9 @@ func newMapRun(cfg mapCfg, rng *rand.Rand, out *json.Encoder) *mapRun {
 		ul = cfg.Layers
 	}
 	r.kc = newKeyCodec(cfg.KT, cfg.NK, cfg.Bf, rng, ul, 3)
+	if cfg.Cmp && cfg.Rev {
+		r.kc.reverse()
+	}
 	r.cfg.Layers = r.kc.layers
 	r.vc = newValCodec(cfg.VT)
 	r.st = newRecStore(fmt.Sprintf("mem-%d", cfg.ID))
@@ -506,6 +513,7 @@ func randomMapTrace(id int, seed int64, steps int, out *json.Encoder, fixed *map
 			cfg.KT = []string{"int", "int64", "uint", "uint64", "string", "bytes", "userkey"}[rng.Intn(7)]
 		}
 		cfg.Cmp = rng.Intn(4) == 0 && cfg.KT != "struct"
+		cfg.Rev = cfg.Cmp && rng.Intn(2) == 0
 		if (profile == "reload" || profile == "general" || profile == "versions") && cfg.Marsh == "" && rng.Intn(8) == 0 {
 			cfg.Marsh = "jsonreg"
 			cfg.NF = "v1" // (in the binary format the element type comes from KeysLike / ValuesLike even then: nil ValuesLike means no values are kept)
